@@ -155,6 +155,13 @@ fn oracle(rec: &Rec, b: &Built, line: &str, out: &mut Out, root: &std::path::Pat
                     if *levels != (*il, *il) || nd.user_mode != *il {
                         out.oracle_fail("replacement-keeps-service-level", line, "replacement installed / recorded / upgraded at different levels");
                     }
+                    // the fifth install call: the level of the service being replaced. `antctl add` sets a service user
+                    // only at system level and the replacement needs one, so a user-level original is not an antctl input
+                    if b.install_user_mode {
+                        out.count(&format!("drestart:replace:user-level-original-with-service-user(not an antctl input, not judged):installed-at-{}", level(*il)));
+                    } else if *il {
+                        out.oracle_fail("replacement-keeps-service-level", line, "a system-level service is replaced by one installed at user level");
+                    }
                 }
             }
         }
